@@ -34,7 +34,7 @@ def required(tier):
               'width:sub-channel': 50, 'start:outside': 10, 'start:edge': 10, 'units:quantity': 50,
               'smear:drift-exact-multiple-of-unit': 40, 'start:edge-entry': 40, 'start:narrow-off-centre': 200})
     b.update({'level-type:' + t: 100 for t in set(LEVEL_TYPES)})
-    b.update({'helper-called-twice': 300, 'helper-called-twice:out-of-band': 50, 'df:negative-argument': 100})
+    b.update({'helper-called-twice': 300, 'helper-called-twice:out-of-band': 50, 'df:negative-argument': 100, 'geometry:python-integers': 60})
     return {'buckets': b, 'counters': {'mandatory_pixels': 5000}, 'checks': 500, 'nontrivial': 200}
 
 
@@ -132,6 +132,8 @@ def run_case(c, R):
     R.bucket('profile:' + c['profile'])
     if g.get('neg_df'):
         R.bucket('df:negative-argument')
+    if g.get('int_geom'):
+        R.bucket('geometry:python-integers')
     R.bucket('smear:on' if c['smear'] else 'smear:off')
     R.bucket('drift:zero' if c['d'] == 0 else ('drift:neg' if c['d'] < 0 else 'drift:pos'))
     if c['w'] < 1:
